@@ -141,6 +141,26 @@ func goType(n *Node) reflect.Type {
 	panic("goType: " + n.K)
 }
 
+// the alternative destination type of a schema: struct fields in the opposite order (ExtraZ first)
+func goTypeAlt(n *Node) reflect.Type {
+	switch n.K {
+	case "pre":
+		return goTypeAlt(n.Elem())
+	case "slice":
+		return reflect.SliceOf(goTypeAlt(n.Elem()))
+	case "ptr":
+		return reflect.PointerTo(goTypeAlt(n.Elem()))
+	case "struct":
+		fs := []reflect.StructField{{Name: "ExtraZ", Type: reflect.TypeOf(0)}}
+		for i := len(n.Kids) - 1; i >= 0; i-- {
+			k := n.Kids[i]
+			fs = append(fs, reflect.StructField{Name: fieldName(k.Key), Type: goTypeAlt(k.Node), Tag: reflect.StructTag(tagString(k.Tags))})
+		}
+		return reflect.StructOf(fs)
+	}
+	return goType(n)
+}
+
 func fieldName(key string) string { return strings.ToUpper(key[:1]) + key[1:] }
 
 func tagString(t Tags) string {
@@ -445,6 +465,16 @@ func testOpts(t Test) []z.TestOption {
 	}
 	if t.Msg != "" {
 		opts = append(opts, z.Message(t.Msg))
+	}
+	if !t.User && t.N%2 == 1 {
+		// a user option that ADDS parameters to the ones the built-in test declares: messages and results are unaffected
+		opts = append(opts, func(test *z.Test) {
+			m := map[string]any{"hint": "h", "docs": "d", "aaa": 1}
+			for k, v := range test.Params {
+				m[k] = v
+			}
+			test.Params = m
+		})
 	}
 	return opts
 }
